@@ -115,6 +115,18 @@ SOILOPT = {
     "cr_shape": {"fshape_cr": 4, "z_top": 0.2},
 }
 
+# crop keyword overrides (documented switches and a few parameters the water processes read)
+CROPOPT = {
+    "default": {},
+    "ETadj0": {"ETadj": 0},
+    "sown": {"PlantMethod": 1},
+    "transplanted": {"PlantMethod": 0},
+    "zmin.5": {"Zmin": 0.5},
+    "aer15_lag1": {"Aer": 15, "LagAer": 1},
+    "sxflat": {"SxTopQ": 0.02, "SxBotQ": 0.02},
+    "kcb_fage": {"Kcb": 1.2, "fage": 1.0},
+}
+
 IWC_KINDS = ["WP", "FC", "SAT", "Pct50", "Depth"]
 
 WINDOWS = {  # (start offset in days relative to first planting, n seasons, trailing days after last planting year's harvest)
@@ -137,6 +149,7 @@ WATER_MENUS = {
     "word": ["normal", "mix", "wet", "dry"],
     "win": ["w2", "w1"],
     "soilopt": list(SOILOPT),
+    "cropopt": list(CROPOPT),
 }
 
 
@@ -246,6 +259,7 @@ def resolve_irr(ir, planting_dates, length):
 def to_spec(c, planting="05/01", year=2001):
     crop = dict(CROPS[c["crop"]])
     crop.setdefault("kw", {})
+    crop["kw"] = {**crop["kw"], **CROPOPT[c.get("cropopt", "default")]}
     crop["planting"] = c.get("planting", planting)
     crop["harvest"] = None
     soil = copy.deepcopy(SOILS[c["soil"]])
@@ -297,6 +311,7 @@ def _b(**kw):
         "word": "mix",
         "win": "w2",
         "soilopt": "default",
+        "cropopt": "default",
     }
     base.update(kw)
     return base
